@@ -197,6 +197,18 @@ def c10(tier, seed, work):
     res = console_check("C10", tier, seed, work, mc, fams, COMMON_ASSUME,
                         hs_fams=[dict(name="c10-hs-retry", family="retry", tier=tier, seed=seed),
                                  dict(name="c10-hs-retry-rt", family="retry", tier=tier, seed=seed + 1, opts={"blockOnLost": True, "timeoutMs": 120})])
+    # real time, the library's own transport and back-off: temporary codes answered promptly, then the final answer
+    rt = confirmed_realtime(work, lambda nm: F.walk_family(work, nm, "MCGenTiming", "Gen_Cipher.cfg.tpl", "retrytime", tier, seed, workers=8), "c10-retrytime")
+    require_accepted([rt])
+    ex = flatten(rt)
+    attach_scripts(ex)
+    res["viols"] += ex
+    res["coverage"]["families"] += fam_cov([rt])
+    res["coverage"]["evaluations"] += rt["scripts"]
+    res["coverage"]["distinct_nontrivial"] += rt["scripts"]
+    res["coverage"]["rule"] += (" Over UDP loopback with the library's own back-off: node busy once or twice, each answered promptly, then the "
+                                "final answer, in and out of a session, per-attempt timeouts 150 and 300 ms (shorter than the back-off pauses): "
+                                "the command must return that answer (three-fold reproduction for a violation).")
     return add_walk(res, work, [dict(name="c10-lun", module="MCGenSensor", cfg_tpl="Gen_Cipher.cfg.tpl", family="lun", tier=tier, seed=seed)],
                     "Commands addressed to responder LUN 0..3 (Get Sensor Reading through a sensor reader), answered from that LUN with "
                     "temporary codes and then the reading.")
